@@ -96,6 +96,12 @@ def main(tier):
             cases += [{"op": op, "zone": z} for z in (["UTC", "Asia/Jerusalem"] if tier == "quick" else ["UTC", "Asia/Jerusalem", "Australia/Lord_Howe", "America/St_Johns"])]
             continue
         cases += A.op_cases(op, tier)
+    # login replies of a fixed length without tail (lets the code search / index the whole reply)
+    for op, extra in (("get_state", {}), ("control_device", {"command": "ON"}), ("stop", {})):
+        cases.append(dict({"op": op, "lr_fixed": 16}, **extra))
+    # IR command texts of concrete boundary lengths with every character symbolic (chunking / threshold behaviour)
+    for n in ([3, 12, 165, 940] if tier == "quick" else [1, 3, 11, 12, 164, 165, 166, 252, 933, 934, 1000]):
+        cases.append({"op": "control_breeze_device", "separated": False, "update": False, "req": "state_only", "ir_len": n, "simple_state": True})
     results = H.run_cases("harness.C01", "run_case", cases, timeout_ms=60000 if tier == "quick" else 600000)
     nwit = validate_witnesses(results)
     H.finish(
